@@ -468,6 +468,10 @@ def call_lua_sandbox(
                                 sortid="luaexec/477/20230710",
                             )
                             k = 1000
+                    else:
+                        # The name may contain template calls and parser
+                        # functions, as the name of a template argument
+                        k = expander(k).strip()
                 else:
                     # unnamed parameter
                     k = num
